@@ -369,19 +369,19 @@ Section Refine.
       left. exists b, es, ridx. cbn [fst snd bc_blk]. auto.
   Qed.
 
-  (* file positions are distinct: a block of level k+1 is never a block of level k *)
-  Hypothesis Hdisj : forall k it, In it (lseq k) -> ~ In (coff it) (offs k).
-
+  (* file positions are distinct (a block of level k+1 is never a block of level k): a premise of the
+     descent lemmas for the index levels they walk through *)
   Lemma init_gen m : absmove m -> forall depth k up gp pit n,
     positioned up k gp -> nth_error (lseq k) gp = Some pit -> item_ok pit ->
     (forall k', (k < k' <= k + depth)%nat -> Forall item_ok (lseq k')) ->
+    (forall k', (k < k' <= k + depth)%nat -> forall it, In it (lseq k') -> ~ In (coff it) (offs k')) ->
     exists res n', initial_blocks ld m depth n (coff pit) = Done (res, n') /\ n <= n' <= n + N.of_nat depth /\
       match sdesc m k gp depth with
       | Some g => exists lv', res = Some lv' /\ length lv' = depth /\ positioned (rev lv' ++ up) (k + depth) g /\ coherent (S k) lv'
       | None => res = None
       end.
   Proof.
-    intro Hm. induction depth as [|depth IH]; intros k up gp pit n Hp Hn Hok Hitems.
+    intro Hm. induction depth as [|depth IH]; intros k up gp pit n Hp Hn Hok Hitems Hdisj.
     - cbn [initial_blocks sdesc]. exists (Some []), n. split; [reflexivity|]. split; [lia|].
       exists []. cbn [rev app length coherent]. replace (k + 0)%nat with k by lia. auto.
     - cbn [initial_blocks].
@@ -402,7 +402,7 @@ Section Refine.
         assert (Hp1 : forall o, positioned ((o, c1) :: up) (S k) (gstart (lseq k) gp + j)).
         { intro o. eapply pos_step; [exact Hp | exact Hn | exact Hok |]. exists b, es, ridx. auto. }
         destruct (IH (S k) _ _ (kj, obj) (n + 1) (Hp1 (coff (kj, obj))) Hn1 Hok1
-                     ltac:(intros k' Hk'; apply Hitems; lia)) as (res & n' & Er & Hn' & Hres).
+                     ltac:(intros k' Hk'; apply Hitems; lia) ltac:(intros k' Hk'; apply Hdisj; lia)) as (res & n' & Er & Hn' & Hres).
         rewrite Er. cbn [bind]. 
         replace (k + S depth)%nat with (S k + depth)%nat by lia.
         destruct (sdesc m (S k) (gstart (lseq k) gp + j) depth) as [g|].
@@ -410,7 +410,7 @@ Section Refine.
           exists (Some ((coff (kj, obj), c1) :: lv')), n'. split; [reflexivity|]. split; [lia|].
           exists ((coff (kj, obj), c1) :: lv'). split; [reflexivity|]. split; [cbn [length]; lia|].
           cbn [rev]. rewrite <- app_assoc. cbn [app]. split; [exact Hpos|].
-          cbn [coherent]. split; [|exact Hcoh]. right. cbn [fst]. apply Hdisj. eapply nth_error_In. exact Hn1.
+          cbn [coherent]. split; [|exact Hcoh]. right. cbn [fst]. apply (Hdisj (S k) ltac:(lia)). eapply nth_error_In. exact Hn1.
         * subst res. exists None, n'. split; [reflexivity|]. split; [lia|reflexivity].
       + assert (Hj : (length es <= j)%nat) by (apply nth_error_None; exact Ej).
         destruct (Nat.ltb_spec j (length es)); [lia|].
@@ -482,13 +482,14 @@ Section Refine.
 
   Theorem init_root m : absmove m -> forall depth n, (0 < depth)%nat ->
     (forall k', (k' < depth)%nat -> Forall item_ok (lseq k')) ->
+    (forall k', (k' < depth)%nat -> forall it, In it (lseq k') -> ~ In (coff it) (offs k')) ->
     exists res n', initial_blocks ld m depth n root = Done (res, n') /\ n <= n' <= n + N.of_nat depth /\
       match sroot m depth with
       | Some g => exists lv', res = Some lv' /\ length lv' = depth /\ positioned (rev lv') (depth - 1) g /\ coherent 0 lv'
       | None => res = None
       end.
   Proof.
-    intros Hm depth n Hd Hitems. destruct depth as [|depth]; [lia|].
+    intros Hm depth n Hd Hitems Hdisj. destruct depth as [|depth]; [lia|].
     cbn [initial_blocks].
     destruct (Hld _ _ _ _ Hroot) as (Hl & W & Hnee).
     rewrite (Hl n). cbn [bind]. rewrite (abs_move m (bc_new rb) root rb root_items rridx Hm Hroot eq_refl). cbn [bind].
@@ -503,14 +504,14 @@ Section Refine.
       pose proof (off_of_item (kj, obj) Hok1) as Ho1. cbn [snd] in Ho1. rewrite Ho1. cbn [bind].
       assert (Hp1 : positioned [(coff (kj, obj), c1)] 0 j) by (apply pos_root; exists rb, root_items, rridx; auto).
       destruct (init_gen m Hm depth 0%nat [(coff (kj, obj), c1)] j (kj, obj) (n + 1) Hp1 Hn1 Hok1
-                   ltac:(intros k' Hk'; apply Hitems; lia)) as (res & n' & Er & Hn' & Hres).
+                   ltac:(intros k' Hk'; apply Hitems; lia) ltac:(intros k' Hk'; apply Hdisj; lia)) as (res & n' & Er & Hn' & Hres).
       rewrite Er. cbn [bind]. cbn [plus] in Hres. replace (S depth - 1)%nat with depth by lia.
       destruct (sdesc m 0 j depth) as [g|].
       + destruct Hres as (lv' & -> & Hlen & Hpos & Hcoh).
         exists (Some ((coff (kj, obj), c1) :: lv')), n'. split; [reflexivity|]. split; [lia|].
         exists ((coff (kj, obj), c1) :: lv'). split; [reflexivity|]. split; [cbn [length]; lia|].
         cbn [rev]. split; [exact Hpos|]. cbn [coherent]. split; [|exact Hcoh].
-        right. cbn [fst]. apply (Hdisj 0%nat). eapply nth_error_In. exact Hn1.
+        right. cbn [fst]. apply (Hdisj 0%nat ltac:(lia)). eapply nth_error_In. exact Hn1.
       + subst res. exists None, n'. split; [reflexivity|]. split; [lia|reflexivity].
     - assert (Hj : (length root_items <= j)%nat) by (apply nth_error_None; exact Ej).
       destruct (Nat.ltb_spec j (length root_items)); [lia|].
@@ -635,6 +636,7 @@ Section Refine.
   Variable levels : N.
   Let D : nat := S (N.to_nat levels).
   Hypothesis Hitems_all : forall k, (k < D)%nat -> Forall item_ok (lseq k).
+  Hypothesis Hdisj : forall k, (k < D)%nat -> forall it, In it (lseq k) -> ~ In (coff it) (offs k).
 
   Definition Coh (st : cstate) : Prop :=
     match cs_inner st with None => True | Some lv => length lv = D /\ coherent 0 lv end.
@@ -771,7 +773,7 @@ Section Refine.
         * split; [apply nth_error_None; exact Hj|]. unfold Coh. cbn [cs_inner]. split; [lia|apply all_valid_coherent; exact Hv].
       + destruct Hres as (-> & Hc'). cbn [bind]. eexists _, _. split; [reflexivity|]. cbn [cs_loads]. split; [lia|].
         split; [reflexivity|]. unfold Coh. cbn [cs_inner]. split; [lia|exact Hc'].
-    - destruct (init_root m Hm D (cs_loads st) HD0 Hitems_all) as (res & n' & Er & Hn' & Hres).
+    - destruct (init_root m Hm D (cs_loads st) HD0 Hitems_all Hdisj) as (res & n' & Er & Hn' & Hres).
       unfold depth. fold D. rewrite Er. cbn [bind].
       destruct (sroot m D) as [g|].
       + destruct Hres as (lv' & -> & Hlen' & Hp & Hc').
@@ -1433,7 +1435,7 @@ Record wf_store (ld : N -> N -> outcome block) (root levels : N)
                 (bstore : N -> option (block * list entry * list nat)) : Prop := mk_wf_store {
   ws_ld : forall off b es ridx, bstore off = Some (b, es, ridx) ->
           (forall ord, ld ord off = Done b) /\ wfblock b es ridx /\ es <> [];
-  ws_disj : forall k it, In it (lseq root bstore k) -> ~ In (coff it) (offs root bstore k);
+  ws_disj : forall k, (k < S (N.to_nat levels))%nat -> forall it, In it (lseq root bstore k) -> ~ In (coff it) (offs root bstore k);
   ws_root : exists rb rridx, bstore root = Some (rb, root_items root bstore, rridx);
   ws_items : forall k, (k < S (N.to_nat levels))%nat -> Forall (item_ok bstore) (lseq root bstore k);
   ws_sorted : forall k, (k <= S (N.to_nat levels))%nat -> sorted_strictb (map fst (lseq root bstore k)) = true;
@@ -1452,7 +1454,7 @@ Theorem R_step ld root levels bstore : wf_store ld root levels bstore ->
     cs_loads st' <= cs_loads st + 2 * (levels + 2).
 Proof.
   intros [H1 H2 (rb & rridx & H3) H4 H5 H6] p st o HR Ha.
-  destruct (step_refines ld root bstore H1 H2 rb rridx H3 levels H4 H5 H6 p st o HR Ha) as (st' & r & A & B & C & E).
+  destruct (step_refines ld root bstore H1 rb rridx H3 levels H4 H2 H5 H6 p st o HR Ha) as (st' & r & A & B & C & E).
   exists st', r. split; [exact A|]. split; [exact B|]. split; [exact C|]. lia.
 Qed.
 
@@ -1463,7 +1465,7 @@ Theorem R_history ld root levels bstore : wf_store ld root levels bstore ->
     Forall2 res_ok (snd (spec_ops root bstore levels p ops)) rs.
 Proof.
   intros [H1 H2 (rb & rridx & H3) H4 H5 H6].
-  exact (history_refines ld root bstore H1 H2 rb rridx H3 levels H4 H5 H6).
+  exact (history_refines ld root bstore H1 rb rridx H3 levels H4 H2 H5 H6).
 Qed.
 
 (* ================= full scans (C01): next from a fresh cursor yields the content in order, then None;
